@@ -5,6 +5,7 @@ Scheduling points are trace events inside files of the statham package:
   granularity "switch": `call` events and backward jumps only (where CPython 3.12's eval loop
                         can actually drop the GIL between two Python-level steps)
   granularity ("calls", {names}): only at entry to the named functions (coarse; for long-running bodies)
+  granularity ("lines", {file names}): every line, but only inside the named library files (deep bounds on one component)
 Exactly one thread runs at a time (per-thread semaphore baton).  Schedules are enumerated
 by iterative context bounding: the default continuation keeps the running thread, then the
 lowest unfinished id; deviating while the running thread is still enabled costs one preemption.
@@ -88,6 +89,10 @@ def run(bodies, schedule, granularity="line", expect=None):
         def glob(frame, event, arg):
             if event != "call" or PKG_MARK not in frame.f_code.co_filename:
                 return None
+            if isinstance(granularity, tuple) and granularity[0] == "lines":
+                # ("lines", {file base names}): line-level scheduling points, but only inside the named library files
+                base = frame.f_code.co_filename.rsplit("/", 1)[-1]
+                return local if base in granularity[1] else None
             if isinstance(granularity, tuple):
                 # ("calls", {function names}): scheduling points only at entry to the named functions (coarse, cheap)
                 if frame.f_code.co_name in granularity[1]:
